@@ -281,8 +281,9 @@ class Run(object):
             "wall_s": round(wall, 2),
             "violations": len(new),
         }
-        os.makedirs(os.path.join(VERIF, "evidence"), exist_ok=True)
-        evp = os.path.join(VERIF, "evidence", self.pid + ".json")
+        evdir = os.environ.get("VERIF_EVIDENCE_DIR") or os.path.join(VERIF, "evidence")
+        os.makedirs(evdir, exist_ok=True)
+        evp = os.path.join(evdir, self.pid + ".json")
         with open(evp + ".tmp", "w") as f:
             json.dump(ev, f, indent=1, default=str)
         os.replace(evp + ".tmp", evp)
@@ -292,7 +293,7 @@ class Run(object):
               "inconclusive=%d wall=%.1fs" % (self.pid, self.tier, self.seed, self.evaluations, len(self.nontrivial),
                                              len(self.viol), len(new), len(known_lines), len(self.inconclusive), wall))
         if new:
-            rd = os.path.join(VERIF, "replays", self.pid)
+            rd = os.path.join(os.environ.get("VERIF_REPLAY_DIR") or os.path.join(VERIF, "replays"), self.pid)
             os.makedirs(rd, exist_ok=True)
             for k in sorted(new)[:40]:
                 v = new[k]
